@@ -117,6 +117,19 @@ CLAIMED = {
         note="Trusted: Coq kernel + vm_compute, translate/py2coq.py, harness (h11rig.py with library proxies, h11gen.py, http1e2e.py, streams.py, sched.py). h11's parser/serialiser are not modelled (received events and returned bytes are recorded oracle values); h11's state machine is modelled (LibH11.v, a port of h11/_state.py) and cross-checked against the real library after every call. HTTP/2 and both-worker coverage of this property comes from the C08/C09/C16 rigs. Open known finding F14 (application queue full at closure) is reported as KNOWN-FINDING.",
         technique="Coq proof (symbolic execution of the monadic models, exhaustive vm_compute over the h11 state space) + in-Coq differential correspondence",
     ),
+    "C13": dict(
+        text="Coq theorems about ProtocolWrapper / _check_protocol: the protocol is a function of how the client opens the "
+             "connection (ALPN h2, prior-knowledge preface, Upgrade: h2c without a body, WebSocket upgrade, else HTTP/1.x; h2c "
+             "with a body ignored), the 101 precedes the switch, and at a switch HTTP/2 receives exactly the bytes h11 had not "
+             "consumed (plus the preface line for prior knowledge) and every later read. Tied to the code by wrapper-level "
+             "differential execution and by end-to-end runs of every opening at its split points, driven by a real h2 client.",
+        design="7/C13",
+        note="Trusted: Coq kernel + vm_compute, harness (c13.py, h11rig.py, sched.py). h11's contract consumed ++ trailing_data = fed is "
+             "assumed (trailing_data is an oracle value), segmentation independence of the HTTP parsers is observed end to end, not "
+             "proved. F23/F24 (h2c and push crashing with h2 >= 4.2) fixed in 950c3a3. Modelled not verified: protocol/__init__.py, "
+             "H11Protocol._check_protocol, H2CProtocolRequiredError.",
+        technique="Coq proof (characterisation lemmas over the wrapper model) + in-Coq differential correspondence + exhaustive split points",
+    ),
 }
 NOT_APPLICABLE = {}
 PENDING_REASON = "check not built yet in this session (planned: Coq model + proof + correspondence, see DESIGN.md section 7)"
